@@ -189,6 +189,10 @@ func plan(sum *Summary, sc *engine.Scenario, seqs map[string]bool) {
 	if sc.TZ != "" {
 		c["zones-used"]++
 	}
+	c["profile:"+sc.Profile]++
+	if gen.IsCold(sc.Seed) {
+		c["profile:cold-start-storm"]++
+	}
 }
 
 func count(sum *Summary, res *engine.Result) {
